@@ -1284,3 +1284,67 @@ Proof.
   (* ACloseAll *)
   rewrite nth_close_listed, Hc. cbn. eexists. split; [reflexivity|]. destruct (mem c (table s) || neg k); cbn; lia.
 Qed.
+
+(* no step of anybody raises the measure of a Send that is under way *)
+Theorem sender_measure_noninc fx s a s' t p :
+  Inv fx s -> step fx s a = Some s' -> nth_error (senders s) t = Some p ->
+  exists p', nth_error (senders s') t = Some p' /\ nmeasure (conns s') p' <= nmeasure (conns s) p.
+Proof.
+  intros I H Ht. pose proof (inv_snd _ _ I _ _ Ht) as Ok.
+  assert (Csm : forall c, c < length (conns s) -> csm (conns s') c <= csm (conns s) c).
+  { intros c Lc. destruct (nth_error (conns s) c) as [k|] eqn:E; [|apply nth_error_None in E; lia].
+    destruct (sm_noninc _ _ _ _ _ _ H E) as (k' & Hk' & Hle). unfold csm. rewrite E, Hk'. auto. }
+  assert (Same : nth_error (senders s') t = Some p ->
+                 exists p', nth_error (senders s') t = Some p' /\ nmeasure (conns s') p' <= nmeasure (conns s) p).
+  { intros E. exists p. split; auto. destruct p as [q|q r|q c r|q c r|r]; cbn; try lia.
+    cbn in Ok. destruct Ok as (k & Hk & _). pose proof (Csm c (nth_error_lt _ _ _ Hk)). destruct r; lia. }
+  destruct a; cbn [step] in H; unfold give_up in H; step_cases H; inversion H; subst;
+    first
+      [ apply Same; cbn; assumption
+      | apply Same; cbn; rewrite nth_error_app1 by (eapply nth_error_lt; eauto); assumption
+      | match goal with
+        | Hs : nth_error (senders s) ?t0 = Some ?x |- _ =>
+            lazymatch t0 with t => fail | _ => idtac end;
+            destruct (Nat.eq_dec t0 t) as [E0|N];
+            [ subst t0; rewrite Hs in Ht; inversion Ht; subst; clear Ht;
+              eexists; (split; [cbn; apply nth_error_upd_eq; eapply nth_error_lt; eauto|]);
+              cbn; unfold csm; cbn;
+              try (rewrite nth_error_app2, Nat.sub_diag by lia; cbn);
+              repeat match goal with E2 : nth_error (conns s) _ = Some _ |- _ => rewrite E2 end;
+              repeat match goal with E3 : setup _ = _ |- _ => rewrite E3 end;
+              cbn; repeat match goal with |- context[if ?b then _ else _] => destruct b end; cbn; lia
+            | apply Same; cbn; rewrite nth_error_upd_neq by auto; assumption ]
+        end ].
+Qed.
+
+Lemma hmf_upd_le cs c k k' :
+  nth_error cs c = Some k -> hmf k' <= hmf k -> sumf hmf (upd cs c k') <= sumf hmf cs.
+Proof. intros H Hle. pose proof (sumf_upd hmf _ _ _ k' H). lia. Qed.
+
+(* once the closed flag is set, no step of anybody raises the measure that handlers_drain
+   brings to zero (a message still arriving, a peer closing, a new Send: none of them adds
+   work for Stop to wait for) *)
+Theorem drain_measure_noninc fx s a s' :
+  Inv fx s -> closed s = true -> step fx s a = Some s' -> sumf hmf (conns s') <= sumf hmf (conns s).
+Proof.
+  intros I Hc H.
+  destruct a; cbn [step] in H; unfold give_up in H; step_cases H; inversion H; subst;
+    cbn [conns set_conns set_senders set_stops set_table set_wg set_abandoned];
+    try lia; try congruence;
+    try (rewrite sumf_app; cbn; lia);
+    try (rewrite sumf_close_listed by reflexivity; lia);
+    try (eapply hmf_upd_le; [eassumption|]; unfold hmf, nmf; cbn;
+         repeat match goal with E : hd _ = _ |- _ => rewrite E end;
+         repeat match goal with E : setup _ = _ |- _ => rewrite E end;
+         repeat match goal with E : neg _ = _ |- _ => rewrite E end;
+         cbn; repeat match goal with |- context[if ?b then _ else _] => destruct b end; cbn; lia).
+  (* ABegin on the code without the negotiating set: the callback is not recorded *)
+  all: match goal with
+       | Hk : nth_error (conns _) _ = Some ?k, Es : setup ?k = IAccept |- _ =>
+           let Hn := fresh in
+           assert (Hn : neg k = false)
+             by (destruct (neg k) eqn:En; auto;
+                 destruct (ci_nacc _ _ _ _ _ _ (inv_conn _ _ I _ _ Hk) En) as [E|E]; rewrite Es in E; discriminate);
+           eapply hmf_upd_le; [eassumption|]; unfold hmf, nmf; cbn; rewrite Hn; cbn; lia
+       end.
+Qed.
